@@ -5,6 +5,8 @@ change and passes without it), run the property's check(s) against it, and keep 
 (patch.diff, demonstration, meta.json).  /repo itself is never touched."""
 import glob, json, os, re, shutil, subprocess, sys, tempfile
 V = os.path.dirname(os.path.dirname(os.path.abspath(__file__)))
+ROOT = os.environ.get("SEED_ROOT", "/tmp/seedout")      # where the sub-agents wrote
+TAG = os.environ.get("SEED_TAG", "")                     # e.g. "r2-": kept as seeded/<ID>-r2-<k>
 ENV = dict(os.environ, GOFLAGS="-mod=mod", GOPROXY="off", GOSUMDB="off", GOTOOLCHAIN="local")
 EXTRA = {"C01": ["C01", "C02", "C03"], "C02": ["C02", "C01"], "C03": ["C03", "C12"], "C04": ["C04"], "C05": ["C05", "C04"], "C06": ["C06"],
          "C07": ["C07", "C13"], "C08": ["C08", "C04"], "C09": ["C09"], "C10": ["C10"], "C11": ["C11"], "C12": ["C12", "C03"], "C13": ["C13"],
@@ -63,7 +65,7 @@ def one(pid, d, k):
         res["detection"] = det
         # keep it
         if ok:
-            kd = os.path.join(V, "seeded", "%s-%d" % (pid, k))
+            kd = os.path.join(V, "seeded", "%s-%s%d" % (pid, TAG, k))
             os.makedirs(kd, exist_ok=True)
             shutil.copy(patch, kd)
             for f in demos:
@@ -85,11 +87,11 @@ def one(pid, d, k):
         shutil.rmtree(s, ignore_errors=True)
 
 def main():
-    ids = sys.argv[1:] or sorted(os.path.basename(p) for p in glob.glob("/tmp/seedout/C*"))
+    ids = sys.argv[1:] or sorted(os.path.basename(p) for p in glob.glob(ROOT + "/C*"))
     import concurrent.futures as cf
     jobs = []
     for pid in ids:
-        for d in sorted(glob.glob("/tmp/seedout/%s/change*" % pid)):
+        for d in sorted(glob.glob("%s/%s/change*" % (ROOT, pid))):
             if os.path.exists(os.path.join(d, "patch.diff")):
                 jobs.append((pid, d, int(re.sub(r"\D", "", os.path.basename(d)) or 1)))
     with cf.ThreadPoolExecutor(max_workers=int(os.environ.get("SEED_J", "4"))) as ex:
